@@ -30,6 +30,7 @@ def run(res):
                               ["rank", "world_size"])
     frames.rank_only_in_slice(res, "kappadata/samplers/weighted_sampler.py", "WeightedSampler", "__iter__", ["rank", "world_size"])
     frames.no_process_dependent_sources(res, ["kappadata/samplers"], "samplers")
+    frames.process_group_queries_not_memoised(res)
     bounded(res, rp.cases_c12(100000 if res.tier == "thorough" else 500, random.Random(res.seed)), "c12-samplers")
     res.notes.append("not claimed: that two different (seed, epoch) keys give two different permutations (a fact about torch's RNG); "
                      "decided instead: the generator key is seed + epoch, injective in epoch")
